@@ -71,12 +71,12 @@ theorem msgsOf_map {α : Type} (g : α → PMsg) (l : List α) :
 
 theorem bytesOf_map (l : List Bytes) : bytesOf (l.map PVal.bytes) = some l := by
   unfold bytesOf
-  have := mapM_map_some PVal.bytes (fun v => match v with | .bytes b => some b | _ => none) id l (fun _ _ => rfl)
-  simpa using this
+  rw [mapM_map_some PVal.bytes _ id l (fun _ _ => rfl)]
+  simp
 
 theorem numsOf_map (l : List Nat) : numsOf (l.map PVal.num) = some l := by
   unfold numsOf
-  have := mapM_map_some PVal.num (fun v => match v with | .num b => some b | _ => none) id l (fun _ _ => rfl)
-  simpa using this
+  rw [mapM_map_some PVal.num _ id l (fun _ _ => rfl)]
+  simp
 
 end Akd.Proto
